@@ -39,6 +39,7 @@ func init() {
 			"and the invalid members sent singly before/after every other op; H/rawinv: every raw batch of <=3 (4) members over {wrong version, scalar params, extra field, no method, empty method, valid call, notification} with at least one invalid member, " +
 			"posted through jhttp.Channel to a Bridge and sent to a jrpc2.Server over a direct channel, replies compared as multisets of (id, result | error); 0-4 gated calls in flight at Client.Close x {close first, release first, partial release} " +
 			"x {reader free, reader held} x single delays at every hch.*/cli.* hook visit; open response bodies and bubble goroutines counted after Close; H/sc: 0-3 calls and 0-3 notifications handed to Send (or Client.Notify) and Close called at once from the same goroutine - no HTTP request may start after Close has returned. " +
+			"H/long: 160 (quick) / 700 (thorough) operations over ONE jhttp.Channel - runs of notifications, of notification-only batches, of calls and batches, three seeded mixtures, each followed by calls - compared op by op with a direct connection (whatever a Send reserves must be given back by the operation itself). " +
 			"distinct_nontrivial = distinct symbol-class shapes (13 classes; for values of more than 5 symbols the first 3 and last 2 classes and the length) of query values that contain a quote, sign, digit, dot, escape, padding or reserved word (plain-letter values excluded) " +
 			"+ distinct (status, cause) Getter requests + distinct (scenario, delay key) channel executions",
 		Assumptions: []string{
@@ -75,6 +76,7 @@ func init() {
 			"h_raw_records_compared":         200,
 			"h_bodies_closed":                200,
 			"h_inflight_at_close":            100,
+			"h_long_ops":                     900,
 		},
 		Exhaustive: func(e vt.Env) bool { return false },
 		Cases:      c19cases,
